@@ -326,6 +326,14 @@ fn main() {
                     }
                     "random" | "pct" => {
                         exhaustive = false;
+                        // PCT places its priority change points over the whole run: measure its length once
+                        let est_len = if mode == "pct" && part < max_runs {
+                            let src = Box::new(explore::Prefix { prefix: vec![] });
+                            let (res, _) = exec::run(scn, src, false, quarantine);
+                            res.steps.len().max(20)
+                        } else {
+                            120
+                        };
                         for k in 0..max_runs {
                             if k % of != part {
                                 continue;
@@ -337,7 +345,7 @@ fn main() {
                                 exec::run(scn, src, record_ops, quarantine).0
                             } else {
                                 let nth = scn.phases.iter().map(|p| p.len()).max().unwrap_or(1) + 1;
-                                let src = Box::new(explore::Pct::new(s, nth, 1 + k % 4, 120));
+                                let src = Box::new(explore::Pct::new(s, nth, 1 + k % 4, est_len));
                                 exec::run(scn, src, record_ops, quarantine).0
                             };
                             sink.put(scn, &res, &json!({"mode":mode,"seed":s}));
@@ -424,6 +432,10 @@ fn main() {
         "extra":extra});
     println!("{}", stats);
     let _ = Outcome::Done;
+    use std::io::Write as _;
+    std::io::stdout().flush().ok();
+    // parked threads of stuck runs must not keep the process alive
+    std::process::exit(0);
 }
 
 /// expected op (from the specification) against the observed one; "*" matches anything
